@@ -306,7 +306,7 @@ impl Check for C14Check {
             Phase::exhaustive("texts", texts * 3 * 2).with_chunk(128),
             Phase::exhaustive("bytes", (1 + 9 + 81) * 3).with_chunk(32),
             Phase::exhaustive("symbols", 12).with_chunk(2),
-            Phase::random("random", tier.pick(60_000, 1_500_000), 96).with_min_tape(24).with_chunk(1024),
+            Phase::random("random", tier.pick(250_000, 2_500_000), 96).with_min_tape(24).with_chunk(1024),
             Phase::exhaustive("literal-pairs", { let n = literal_pool().len() as u64; n * n * 2 }).with_chunk(64),
         ]
     }
